@@ -3,7 +3,7 @@
 # (applied to /repo's working tree and undone straight afterwards); prints whether each is still caught
 cd /repo && git diff --quiet || { echo "repo dirty"; exit 2; }
 for name in "$@"; do
-  p=${name%%-*}
+  p=${name:0:3}
   git -C /repo apply /verif/seeded/$name/patch.diff || { echo "$name: PATCH DOES NOT APPLY"; continue; }
   r=$(cd /verif && timeout 1800 python3 checks/run.py $p --tier quick 2>&1 | grep -E "VIOLATION" | head -2 | tr '\n' ' ')
   git -C /repo checkout -- .
